@@ -13,7 +13,7 @@ ANCHORS = ["pyoma2.functions.gen:merge_mode_shapes", "pyoma2.functions.gen:MSF",
 REQUIRED_MONITORS = ["merge-is-repeatable", "merge@function", "merge@PoSER.synthetic", "merge@PoSER.ssi", "stats@PoSER", "roworder@flatten", "two-campaigns", "names@PoSER.def_geo1"]
 ALL_STATES = ["factors:generic", "factors:+-1 only", "entries:real", "entries:complex", "rov:some setup has none",
               "refs:permuted differently per setup", "nref=1", "nref>1"]
-REQUIRED_STATES = ["factors:generic", "entries:complex", "refs:permuted differently per setup", "global shapes of magnitude < 1e-3", "result object replaced after construction", "two modes with the same frequency", "geometry names from setups of different channel counts", "a reference sensor on a node of a mode"]
+REQUIRED_STATES = ["factors:generic", "entries:complex", "refs:permuted differently per setup", "global shapes of magnitude < 1e-3", "result object replaced after construction", "two modes with the same frequency", "geometry names from setups of different channel counts", "a reference sensor on a node of a mode", "first setup's shapes of integer type"]
 RULE = ("global matrices G (1..8 modes, real/complex), 2..5 setups, 1..4 references, 0..5 roving per setup, channel lists randomly "
         "permuted per setup, factors +-[0.05,20] per setup and mode; merged result compared with c_1k*[G_ref;G_rov1;...] (rel 1e-10), "
         "row order with flatten_sns_names; PoSER statistics with statistics.pstdev; non-trivial = at least one factor ratio "
@@ -129,6 +129,16 @@ def run_fn(ctx, rng):
         ctx.state("global shapes of magnitude < 1e-3")
     c = factors(rng, nset, nmodes, pm1=rng.random() < 0.1)
     MS = [G[cg, :] * c[i][None, :] for i, cg in enumerate(chan_glob)]
+    if rng.random() < 0.15:
+        # shapes typed in as whole numbers: the first setup stored with an integer dtype, the factors of the others are not integers
+        Gi = np.round(G.real * 3 / max(np.max(np.abs(G.real)), 1e-300))
+        Gi[Gi == 0] = 1.0
+        G = Gi.astype(float) if not cplx else Gi.astype(complex)
+        c = c.copy()
+        c[0] = np.sign(c[0]) * np.maximum(1, np.round(np.abs(c[0])))
+        MS = [G[cg, :] * c[i][None, :] for i, cg in enumerate(chan_glob)]
+        MS[0] = np.round(MS[0].real).astype(np.int64)
+        ctx.state("first setup's shapes of integer type")
     MS_copy = [a.copy() for a in MS]
     M = G_.merge_mode_shapes([a for a in MS], [list(r) for r in reflist])
     for a, b in zip(MS, MS_copy):
@@ -222,8 +232,10 @@ def run_synth(ctx, rng):
     names_ch = [[("R%d" % g if g < nref else "dof%d" % g) for g in cg] for cg in chan_glob]
     exp_names = [f"REF{j+1}" for j in range(nref)] + [f"dof{g}" for g in expected_rows(nref, chan_glob, reflist)[nref:]]
     width = max(len(c) for c in names_ch)
+    labels = [f"{w} span" for w in rng.permutation(["north", "centre", "south", "east", "west"])[:nset]]  # descriptive, not sorted
     forms = [[list(c) for c in names_ch],
-             pd.DataFrame([c + [np.nan] * (width - len(c)) for c in names_ch], index=pd.Index(range(1, nset + 1), name="setup No."), columns=[f"chann. {i+1}" for i in range(width)])]
+             pd.DataFrame([c + [np.nan] * (width - len(c)) for c in names_ch], index=pd.Index(range(1, nset + 1), name="setup No."), columns=[f"chann. {i+1}" for i in range(width)]),
+             pd.DataFrame([c + [np.nan] * (width - len(c)) for c in names_ch], index=pd.Index(labels, name="setup"), columns=[f"chann. {i+1}" for i in range(width)])]
     coords = pd.DataFrame(rng.integers(-5, 6, (len(exp_names), 3)).astype(float), index=exp_names, columns=["x", "y", "z"])
     for form in forms:
         ms.def_geo1(_copy.deepcopy(form), coords.copy(), np.ones((len(exp_names), 3)))
